@@ -443,6 +443,9 @@ def jobs(tier):
     from harness import C04_gid
 
     js += C04_gid.jobs(tier)
+    from harness import C04_filename
+
+    js += C04_filename.jobs(tier)
     return js
 
 
@@ -468,7 +471,7 @@ def main(tier):
         explanation="Bounded symbolic execution of glyph_name/generate_fea (through an AST-instrumenting loader regenerated from the current source; strings as lists of z3 Int character codes with concrete length per path), of the blank-glyph and glyph-id bookkeeping in write_font, and of the advance rule.",
         bounds={"code point sequences": "quick: up to 2 vs 3 code points (class patterns whose name lengths can coincide); thorough: 3 vs 3 and 2 vs 4", "code points": "0x21..0x10FFFF, value symbolic inside its digit-count class",
                 "long names": "9-14 code points of one class, sha1+base32 modelled as an injective function", "advance": "viewBox height from a list, width symbolic real in [h/4,4h], em height 16..4096, width 0..8192"},
-        outside=["cmap/GSUB compilation by ufo2ft/feaLib and the shaping engine", "codepoints.from_filename (regex C extension)", "sha1 collisions"],
+        outside=["cmap/GSUB compilation by ufo2ft/feaLib and the shaping engine", "the regex engine's matching order inside codepoints.from_filename (the pattern's language is decided; how the C engine cuts a name is sampled)", "sha1 collisions"],
         assumptions=["sha1+base32 is injective on the hashed string", "non-ASCII isalpha is an uninterpreted predicate (the code conjoins isascii)"],
         shims=["instrumenting loader for nanoemoji.glyph and nanoemoji.features (mod/call/method rewriting)", "SymNum.__hash__ constant in the blank-glyph job (set membership by symbolic equality)"],
         stubs=["ufo -> recorder (newGlyph/glyphOrder) in the blank-glyph job", "SVG/PNG -> objects with view_box()/size in the advance job"],
